@@ -27,6 +27,13 @@ def exact(hi, lo):
     return mpf(hi) + mpf(lo)
 
 
+def frac(hi, lo):
+    """exact rational value hi + lo (used for domain decisions; the 400-bit mpf sum can round when the
+    words are more than 400 binades apart)"""
+    from fractions import Fraction
+    return Fraction(hi) + Fraction(lo)
+
+
 def valid_ref(hi, lo):
     return hi == hi and lo == lo and abs(hi) != float('inf') and abs(lo) != float('inf') and hi + lo == hi
 
@@ -115,7 +122,7 @@ def spec_powf(ins):
     if x == 0 or y == 0 or not (two(-30) <= abs(x) <= two(30)) or abs(y) > 10:
         return None
     if x < 0:
-        if y != mpmath.floor(y):
+        if frac(yh, yl).denominator != 1:
             return None  # invalid result required: checked in-process
         t = mpmath.power(-x, y)
         if int(y) % 2 != 0:
@@ -158,7 +165,7 @@ def spec_log10(ins):
 def spec_ln_1p(ins):
     hi, lo = _x(ins)
     v = exact(hi, lo)
-    if not (v > -1) or hi > 2.0 ** 960 or (v != 0 and abs(hi) < 2.0 ** -1000):
+    if not (frac(hi, lo) > -1) or hi > 2.0 ** 960 or (v != 0 and abs(hi) < 2.0 ** -1000):
         return None
     t = mpmath.log1p(v)
     if abs(v) <= two(-8) or v >= mpf('0.75'):
@@ -203,7 +210,7 @@ def spec_tan(ins):
 def spec_asin(ins):
     hi, lo = _x(ins)
     v = exact(hi, lo)
-    if abs(v) > 1:
+    if abs(frac(hi, lo)) > 1:
         return None
     t = mpmath.asin(v)
     if abs(v) == 1:
@@ -214,7 +221,7 @@ def spec_asin(ins):
 def spec_acos(ins):
     hi, lo = _x(ins)
     v = exact(hi, lo)
-    if abs(v) > 1:
+    if abs(frac(hi, lo)) > 1:
         return None
     t = mpmath.acos(v)
     if v == -1:
@@ -270,7 +277,7 @@ def spec_tanh(ins):
 def spec_atanh(ins):
     hi, lo = _x(ins)
     v = exact(hi, lo)
-    if abs(v) > 1 - two(-10):
+    if abs(frac(hi, lo)) > 1 - frac(2.0 ** -10, 0.0):
         return None
     t = mpmath.atanh(v)
     return t, two(-100) * abs(t) + two(-101), '2^-100*|f| + 2^-101'
@@ -288,7 +295,7 @@ def spec_asinh(ins):
 def spec_acosh(ins):
     hi, lo = _x(ins)
     v = exact(hi, lo)
-    if not (v > 1) or v > two(60):
+    if not (frac(hi, lo) > 1) or v > two(60):
         return None
     t = mpmath.acosh(v)
     return t, two(-100) * (t + 1 / t), '2^-100*(A + 1/A)'
@@ -450,7 +457,17 @@ class Judge:
                 self.outside += 1
                 return
             k += 2
-        s = fn(ins)
+        # enough working precision to hold every operand hi + lo exactly (words may be ~2000 binades apart)
+        import math
+        prec = PREC
+        k = 0
+        while k + 1 < len(ins) and not (op == 'powi' and k >= 2):
+            h, l = f64(ins[k]), f64(ins[k + 1])
+            if h != 0.0 and l != 0.0:
+                prec = max(prec, math.frexp(h)[1] - math.frexp(l)[1] + 53 + 300)
+            k += 2
+        with mp.workprec(prec):
+            s = fn(ins)
         if s is None:
             self.outside += 1
             return
